@@ -333,9 +333,18 @@ func TestVP_C15_atomic_idempotent(t *testing.T) {
 			}
 			before := vpLDump(l.Store)
 			var err error
+			v0 := l.Store.snapshotsDB.MaxVersion()
 			pan := vpLCatch(func() { err = l.Store.WriteSnapshot(snap, l.NodeIds) })
+			commits := l.Store.snapshotsDB.MaxVersion() - v0
 			after := vpLDump(l.Store)
 			failed := err != nil || pan != nil
+			// one finalization = one durable write: Badger hands out one commit
+			// timestamp per committed update, so the call may consume exactly one
+			// (none when it fails); several commits would let a crash between
+			// them expose a partly written snapshot
+			if want := uint64(1); (failed && commits != 0) || (!failed && commits != want) {
+				t.Fatalf("%s: WriteSnapshot (failed=%v) of %d members was committed in %d separate database writes", class, failed, len(snap.Transactions), commits)
+			}
 			if failed {
 				if d := vpLDumpDiff(before, after); len(d) > 0 {
 					t.Fatalf("%s: WriteSnapshot failed (%v %v) but changed the database: %v", class, err, pan, d[:min(len(d), 8)])
